@@ -379,7 +379,7 @@ func c19Handlers(c *Ctx, p *Prog) {
 	// events per function: starts (+1 reported now), deferred finishes (-1 at exit), direct finishes
 	type events struct {
 		starts, directFin []ssa.Instruction
-		deferred         []*ssa.Defer
+		deferred          []*ssa.Defer
 	}
 	ev := map[*ssa.Function]*events{}
 	get := func(fn *ssa.Function) *events {
@@ -529,7 +529,20 @@ func c19Handlers(c *Ctx, p *Prog) {
 	ob = c.Obl("R2", "obfs4proxy.termMonitor.numHandlers#writers", "numHandlers is written only by the monitor loop (single goroutine), by adding the received delta")
 	st := p.Stores("obfs4proxy.termMonitor", "numHandlers")
 	bad := ""
+	nInit := 0
 	for _, s := range st {
+		// spelling out the zero value when the monitor is created (a store of 0 into the freshly
+		// allocated object) is not an update
+		if k, ok := intConst(unspill(s.Val)); ok && k == 0 {
+			if sto, ok := s.Instr.(*ssa.Store); ok {
+				if fa, ok := sto.Addr.(*ssa.FieldAddr); ok {
+					if al, ok := fa.X.(*ssa.Alloc); ok && al.Heap {
+						nInit++
+						continue
+					}
+				}
+			}
+		}
 		if p.FuncKey(s.Fn) != "obfs4proxy:(*termMonitor).wait" {
 			bad = "written in " + p.FuncKey(s.Fn)
 		}
@@ -542,7 +555,7 @@ func c19Handlers(c *Ctx, p *Prog) {
 			bad = "the delta is not the value received from the handler channel"
 		}
 	}
-	if len(st) == 0 {
+	if len(st)-nInit == 0 {
 		bad = "numHandlers is never updated"
 	}
 	if bad != "" {
